@@ -1,4 +1,74 @@
-// Kani harnesses mounted inside src/location.rs (child module: sees private items)
+// Kani harnesses mounted inside src/location.rs (child module: sees private items).
+//
+// C16: conversion of parser marks to the reported coordinates (line, column, character offset and
+// length, byte offset and length).
+use super::*;
+use saphyr_parser::Marker;
+
+/// Parser contract for marks (saphyr-parser): end is not before start; the character index never
+/// exceeds the byte offset; everything below 2^32 - 1 (documents under 4 GiB, default build).
+#[kani::proof]
+fn c16_location_from_span() {
+    let (si, sl, sc): (usize, usize, usize) = (kani::any(), kani::any(), kani::any());
+    let (ei, el, ec): (usize, usize, usize) = (kani::any(), kani::any(), kani::any());
+    let sb: Option<usize> = kani::any();
+    let eb: Option<usize> = kani::any();
+    const LIM: usize = u32::MAX as usize;
+    kani::assume(si < LIM && sl < LIM && sc < LIM && ei < LIM && el < LIM && ec < LIM);
+    kani::assume(ei >= si);
+    if let (Some(s), Some(e)) = (sb, eb) {
+        kani::assume(e >= s && s >= si && e >= ei);
+    }
+    let span = ParserSpan::new(
+        Marker::new(si, sl, sc).with_byte_offset(sb),
+        Marker::new(ei, el, ec).with_byte_offset(eb),
+    );
+    let loc = location_from_span(&span);
+    assert!(loc.line() == sl as u64, "line is not the start mark's line");
+    assert!(loc.column() == sc as u64 + 1, "column is not the 1-based start column");
+    assert!(loc.span().offset() == si as u64, "character offset differs from the start mark");
+    assert!(loc.span().len() == (ei - si) as u64, "character length differs from the marks");
+    match (sb, eb) {
+        (Some(s), Some(e)) if s <= LIM && e - s <= LIM => {
+            if s == 0 && e == 0 {
+                // (0,0) is the crate's encoding of "unavailable"; an empty span at byte 0 is
+                // indistinguishable from it by design
+                assert!(loc.span().byte_offset().is_none());
+            } else {
+                assert!(loc.span().byte_offset() == Some(s as u64), "byte offset differs from the start mark");
+                assert!(loc.span().byte_len() == Some((e - s) as u64), "byte length differs from the marks");
+            }
+            kani::cover!(s > si, "multi-byte characters before the node");
+        }
+        _ => {
+            assert!(loc.span().byte_offset().is_none() && loc.span().byte_len().is_none());
+            kani::cover!(sb.is_some() && eb.is_some(), "byte info dropped because it does not fit 32 bits");
+        }
+    }
+}
+
+/// use-site / definition-site pair: `same` and `primary_location`.
+#[kani::proof]
+fn c16_locations_pair() {
+    let a = Location::new(kani::any::<u32>() as usize, kani::any::<u32>() as usize);
+    let b = Location::new(kani::any::<u32>() as usize, kani::any::<u32>() as usize);
+    let l = Locations {
+        reference_location: a,
+        defined_location: b,
+    };
+    match l.primary_location() {
+        Some(p) => {
+            assert!(p != Location::UNKNOWN);
+            assert!(if a != Location::UNKNOWN { p == a } else { p == b });
+        }
+        None => assert!(a == Location::UNKNOWN && b == Location::UNKNOWN),
+    }
+    match Locations::same(&a) {
+        Some(s) => assert!(a != Location::UNKNOWN && s.reference_location == a && s.defined_location == a),
+        None => assert!(a == Location::UNKNOWN),
+    }
+    kani::cover!(a == Location::UNKNOWN && b != Location::UNKNOWN, "definition-site only");
+}
 
 // concrete-playback slot: bin/check writes the solver counterexample here as a unit test for native replay
 include!("/verif/.build/playback/location_pb.rs");
